@@ -86,7 +86,25 @@ pub fn eval(cfg: &Cfg, input: &[u8], st: &mut Stats) -> Result<(), String> {
 }
 
 pub fn run(ctx: &Ctx) -> i32 {
-    let parts = common::std_sweep(ctx.tier, Flavor::AllModeSets);
+    let mut parts = common::std_sweep(ctx.tier, Flavor::AllModeSets);
+    // header options (ECI designator, FNC1 start, both) with every mode set: an option must not
+    // widen the set of enabled modes
+    {
+        let d = crate::bridge::ListMask::default_list();
+        let mut hdr: Vec<Cfg> = Vec::new();
+        for modes in gen::modes_all() {
+            for (eci, fnc1) in [(Some(3u32), false), (Some(26), false), (Some(16383), true), (None, true)] {
+                hdr.push(Cfg { modes, list: d, macros: true, fnc1, eci });
+            }
+        }
+        parts.push(gen::Part { name: "header options x all 63 mode sets: sigma10 <= 4", family: gen::Family::Over { alpha: gen::SIGMA10.to_vec(), min: 0, max: ctx.tier.pick(4, 5) }, cfgs: hdr.clone() });
+        parts.push(gen::Part {
+            name: "header options x all 63 mode sets: runs of one class, length 1..=24",
+            family: gen::Family::Periodic { patterns: vec![b"a".to_vec(), b"A".to_vec(), b"1".to_vec(), b"*".to_vec(), vec![0x80], vec![0xE9, 0xFC], b"~".to_vec(), b"aA".to_vec(), vec![b'a', 0x80], b"A1".to_vec()], lengths: (1..=24).collect() },
+            cfgs: hdr.clone(),
+        });
+        parts.push(gen::Part { name: "header options x all 63 mode sets: macro shapes", family: gen::es_f(1), cfgs: hdr });
+    }
     gen::sweep(ctx, &parts, |_pi, input, cfg, w| {
         w.sample(|| cfg.to_json(input));
         w.check(common::case_size(input, cfg), || cfg.to_json(input), |st| eval(cfg, input, st));
